@@ -268,4 +268,180 @@ theorem store_locate_ord (gs : List GroupSpec) (hg : GoodStore gs) (ord : Nat)
     simp only
     rw [hr, parseMeta_metaBytes _ _ r (hg.fits g _ (hgetk g hgl)).2]
 
+/-- (position form) `BlockAddrStore::binary_search_ord` on the serialised store — the real accessors: store-block
+count from the metadata length, `block_len` parsed from each record, first ordinals through `get` —
+equals the abstract search over the list of first ordinals -/
+theorem store_locate_spec (gs : List GroupSpec) (hg : GoodStore gs) (ord : Nat)
+    (hs : (allOrds gs).Pairwise (· < ·)) (h0 : (allOrds gs).getD 0 0 ≤ ord) :
+    (openStore (storeBytes gs)).locateOrd ord < (allOrds gs).length ∧
+    (allOrds gs).getD ((openStore (storeBytes gs)).locateOrd ord) 0 ≤ ord ∧
+    ((openStore (storeBytes gs)).locateOrd ord + 1 < (allOrds gs).length →
+      ord < (allOrds gs).getD ((openStore (storeBytes gs)).locateOrd ord + 1) 0) := by
+  have hopen := openStore_storeBytes gs hg.size
+  have hG := hg.nonempty
+  have hgetk : ∀ k, k < gs.length → gs[k]? = some (gs.getD k emptyGroup) := by
+    intro k hk
+    simp [List.getD_eq_getElem?_getD, List.getElem?_eq_getElem hk]
+  -- geometry in terms of the group list
+  have hfull : ∀ g, g + 1 < gs.length → (gs.getD g emptyGroup).more.length + 1 = Gen.STORE_BLOCK_LEN :=
+    fun g hgl => hg.full g _ (hgetk g (by omega)) hgl
+  have hlast : (gs.getD (gs.length - 1) emptyGroup).more.length + 1 ≤ Gen.STORE_BLOCK_LEN :=
+    hg.last _ _ (hgetk _ (by omega))
+  have hchunk : ∀ k, k < gs.length → (gs.map (·.ords))[k]? = some (gs.getD k emptyGroup).ords := by
+    intro k hk
+    rw [List.getElem?_map, hgetk k hk]; rfl
+  have hordsLen : ∀ g : GroupSpec, g.ords.length = g.more.length + 1 := by
+    intro g; simp [GroupSpec.ords]
+  have hn : (allOrds gs).length
+      = (gs.length - 1) * Gen.STORE_BLOCK_LEN + (gs.getD (gs.length - 1) emptyGroup).more.length + 1 := by
+    obtain ⟨c, hc, hl⟩ := flatten_chunk_length (gs.map (·.ords)) Gen.STORE_BLOCK_LEN (by simpa using hG)
+      (by
+        intro j c' hj hlt
+        simp only [List.length_map] at hlt
+        rw [hchunk j (by omega)] at hj
+        cases hj
+        rw [hordsLen]; exact hfull j hlt)
+    simp only [List.length_map] at hc hl
+    rw [hchunk _ (by omega)] at hc
+    cases hc
+    unfold allOrds
+    rw [hl, hordsLen]; omega
+  -- the real accessors agree with the lists on everything the search looks at
+  unfold Store.locateOrd
+  rw [hopen]
+  have hnum : (⟨storeMetas 0 gs, storeData gs⟩ : Store).numGroups = gs.length := by
+    unfold Store.numGroups
+    simp only [storeMetas_length]
+    rw [Nat.mul_comm, Nat.mul_div_cancel _ (by decide : 0 < META_SIZE)]
+  rw [hnum]
+  rw [locateOrdGen_congr Gen.STORE_BLOCK_LEN gs.length _ (fun g => (gs.getD g emptyGroup).more.length) _
+    (fun id => (allOrds gs).getD id 0) ord (allOrds gs).length hG ?_ ?_ ?_ ?_ ?_]
+  · -- now the abstract search
+    have hmono : ∀ a b, a < b → b < (allOrds gs).length → (allOrds gs).getD a 0 < (allOrds gs).getD b 0 := by
+      intro a b hab hb
+      have ha : a < (allOrds gs).length := by omega
+      have := (List.pairwise_iff_getElem.mp hs) a b ha hb hab
+      simpa [List.getD_eq_getElem?_getD, List.getElem?_eq_getElem ha, List.getElem?_eq_getElem hb] using this
+    obtain ⟨h1, h2, h3⟩ := locateOrdGen_spec Gen.STORE_BLOCK_LEN gs.length
+      (fun g => (gs.getD g emptyGroup).more.length) (fun id => (allOrds gs).getD id 0) ord
+      (allOrds gs).length hG hfull hlast hn hmono h0
+    exact ⟨h1, h2, h3⟩
+  · -- full store blocks (as parsed)
+    intro g hgl
+    obtain ⟨r, hr⟩ := storeMetas_drop 0 gs g _ (hgetk g (by omega))
+    rw [Nat.zero_add] at hr
+    simp only
+    rw [hr, parseMeta_metaBytes _ _ r (hg.fits g _ (hgetk g (by omega))).2]
+    exact hfull g hgl
+  · obtain ⟨r, hr⟩ := storeMetas_drop 0 gs (gs.length - 1) _ (hgetk _ (by omega))
+    rw [Nat.zero_add] at hr
+    simp only
+    rw [hr, parseMeta_metaBytes _ _ r (hg.fits _ _ (hgetk _ (by omega))).2]
+    exact hlast
+  · obtain ⟨r, hr⟩ := storeMetas_drop 0 gs (gs.length - 1) _ (hgetk _ (by omega))
+    rw [Nat.zero_add] at hr
+    simp only
+    rw [hr, parseMeta_metaBytes _ _ r (hg.fits _ _ (hgetk _ (by omega))).2]
+    exact hn
+  · -- first ordinals through `get`
+    intro id hid
+    have hB : 0 < Gen.STORE_BLOCK_LEN := by decide
+    have hk : id / Gen.STORE_BLOCK_LEN < gs.length := by
+      apply Nat.div_lt_of_lt_mul
+      have : (gs.length - 1) * Gen.STORE_BLOCK_LEN + Gen.STORE_BLOCK_LEN = Gen.STORE_BLOCK_LEN * gs.length := by
+        rw [← Nat.succ_mul, Nat.mul_comm]; congr 1; omega
+      omega
+    have hdecomp : id = id / Gen.STORE_BLOCK_LEN * Gen.STORE_BLOCK_LEN + id % Gen.STORE_BLOCK_LEN := by
+      rw [Nat.mul_comm]; exact (Nat.div_add_mod id _).symm
+    have hi : id % Gen.STORE_BLOCK_LEN ≤ (gs.getD (id / Gen.STORE_BLOCK_LEN) emptyGroup).more.length := by
+      by_cases hl : id / Gen.STORE_BLOCK_LEN + 1 < gs.length
+      · have := hfull _ hl
+        have := Nat.mod_lt id hB
+        omega
+      · have hke : id / Gen.STORE_BLOCK_LEN = gs.length - 1 := by omega
+        rw [hke] at hdecomp ⊢
+        omega
+    have hget := store_get gs (id / Gen.STORE_BLOCK_LEN) (id % Gen.STORE_BLOCK_LEN) _ (hgetk _ hk) hg.size
+      (hg.fits _ _ (hgetk _ hk)).1 (hg.fits _ _ (hgetk _ hk)).2 hi (Nat.mod_lt id hB)
+    rw [hopen, ← hdecomp] at hget
+    simp only [hget]
+    have hflat := flatten_chunk_getD (gs.map (·.ords)) Gen.STORE_BLOCK_LEN (id / Gen.STORE_BLOCK_LEN)
+      (id % Gen.STORE_BLOCK_LEN) _ 0 (hchunk _ hk)
+      (by
+        intro j c' hj hlt
+        rw [hchunk j (by omega)] at hj
+        cases hj
+        rw [hordsLen]; exact hfull j (by omega))
+      (by rw [hordsLen]; omega)
+    rw [← hdecomp] at hflat
+    unfold allOrds
+    rw [hflat, ords_getD _ _ hi]
+  · intro g hgl
+    obtain ⟨r, hr⟩ := storeMetas_drop 0 gs g _ (hgetk g hgl)
+    rw [Nat.zero_add] at hr
+    simp only
+    rw [hr, parseMeta_metaBytes _ _ r (hg.fits g _ (hgetk g hgl)).2]
+
+/-- every block id below the number of blocks reads back, with the first ordinal of that block -/
+theorem store_get_valid (gs : List GroupSpec) (hg : GoodStore gs) (id : Nat) (hid : id < (allOrds gs).length) :
+    ∃ a, (openStore (storeBytes gs)).get id = some a ∧ a.firstOrd = (allOrds gs).getD id 0 := by
+  have hG := hg.nonempty
+  have hgetk : ∀ k, k < gs.length → gs[k]? = some (gs.getD k emptyGroup) := by
+    intro k hk
+    simp [List.getD_eq_getElem?_getD, List.getElem?_eq_getElem hk]
+  have hfull : ∀ g, g + 1 < gs.length → (gs.getD g emptyGroup).more.length + 1 = Gen.STORE_BLOCK_LEN :=
+    fun g hgl => hg.full g _ (hgetk g (by omega)) hgl
+  have hlast : (gs.getD (gs.length - 1) emptyGroup).more.length + 1 ≤ Gen.STORE_BLOCK_LEN :=
+    hg.last _ _ (hgetk _ (by omega))
+  have hchunk : ∀ k, k < gs.length → (gs.map (·.ords))[k]? = some (gs.getD k emptyGroup).ords := by
+    intro k hk
+    rw [List.getElem?_map, hgetk k hk]; rfl
+  have hordsLen : ∀ g : GroupSpec, g.ords.length = g.more.length + 1 := by
+    intro g; simp [GroupSpec.ords]
+  have hn : (allOrds gs).length
+      = (gs.length - 1) * Gen.STORE_BLOCK_LEN + (gs.getD (gs.length - 1) emptyGroup).more.length + 1 := by
+    obtain ⟨c, hc, hl⟩ := flatten_chunk_length (gs.map (·.ords)) Gen.STORE_BLOCK_LEN (by simpa using hG)
+      (by
+        intro j c' hj hlt
+        simp only [List.length_map] at hlt
+        rw [hchunk j (by omega)] at hj
+        cases hj
+        rw [hordsLen]; exact hfull j hlt)
+    simp only [List.length_map] at hc hl
+    rw [hchunk _ (by omega)] at hc
+    cases hc
+    unfold allOrds
+    rw [hl, hordsLen]; omega
+  have hB : 0 < Gen.STORE_BLOCK_LEN := by decide
+  have hk : id / Gen.STORE_BLOCK_LEN < gs.length := by
+    apply Nat.div_lt_of_lt_mul
+    have : (gs.length - 1) * Gen.STORE_BLOCK_LEN + Gen.STORE_BLOCK_LEN = Gen.STORE_BLOCK_LEN * gs.length := by
+      rw [← Nat.succ_mul, Nat.mul_comm]; congr 1; omega
+    omega
+  have hdecomp : id = id / Gen.STORE_BLOCK_LEN * Gen.STORE_BLOCK_LEN + id % Gen.STORE_BLOCK_LEN := by
+    rw [Nat.mul_comm]; exact (Nat.div_add_mod id _).symm
+  have hi : id % Gen.STORE_BLOCK_LEN ≤ (gs.getD (id / Gen.STORE_BLOCK_LEN) emptyGroup).more.length := by
+    by_cases hl : id / Gen.STORE_BLOCK_LEN + 1 < gs.length
+    · have := hfull _ hl
+      have := Nat.mod_lt id hB
+      omega
+    · have hke : id / Gen.STORE_BLOCK_LEN = gs.length - 1 := by omega
+      rw [hke] at hdecomp ⊢
+      omega
+  have hget := store_get gs (id / Gen.STORE_BLOCK_LEN) (id % Gen.STORE_BLOCK_LEN) _ (hgetk _ hk) hg.size
+    (hg.fits _ _ (hgetk _ hk)).1 (hg.fits _ _ (hgetk _ hk)).2 hi (Nat.mod_lt id hB)
+  rw [← hdecomp] at hget
+  refine ⟨_, hget, ?_⟩
+  have hflat := flatten_chunk_getD (gs.map (·.ords)) Gen.STORE_BLOCK_LEN (id / Gen.STORE_BLOCK_LEN)
+    (id % Gen.STORE_BLOCK_LEN) _ 0 (hchunk _ hk)
+    (by
+      intro j c' hj hlt
+      rw [hchunk j (by omega)] at hj
+      cases hj
+      rw [hordsLen]; exact hfull j (by omega))
+    (by rw [hordsLen]; omega)
+  rw [← hdecomp] at hflat
+  unfold allOrds
+  rw [hflat, ords_getD _ _ hi]
+
 end TantivyModel.SSTable
